@@ -204,6 +204,8 @@ class UMFPACKSolver(SuiteSparseSolver):
             umfpack.linsolve(A, b)
         except ArithmeticError:
             logger.error('Singular matrix. Case is not solvable')
+            # `b` still holds the right-hand side; do not return it as a solution
+            return np.ravel(matrix(np.nan, b.size, 'd'))
         return np.ravel(b)
 
 
@@ -229,4 +231,6 @@ class KLUSolver(SuiteSparseSolver):
             klu.linsolve(A, b)
         except ArithmeticError:
             logger.error('Singular matrix. Case is not solvable')
+            # `b` still holds the right-hand side; do not return it as a solution
+            return np.ravel(matrix(np.nan, b.size, 'd'))
         return np.ravel(b)
